@@ -357,7 +357,7 @@ func (x *Exec) modularCall(st *State, fr *Frame, v *ssa.Call, callee *ssa.Functi
 					x.errors = append(x.errors, fmt.Sprintf("%s: call use: %v", u.Where, err))
 					continue
 				}
-				st.assume(t)
+				st.assumeUse(t)
 			}
 		}
 	}
